@@ -148,7 +148,8 @@ CLAIMS = {
              "drift with window_length 1, unknown strategy, window longer than the series; otherwise the fitted window is sp / "
              "window_length / the whole series). "
              "PolynomialTrendForecaster.fit/_predict: degree/intercept options and the zero-based time axis (label - first label) "
-             "in-sample and out-of-sample, labels = requested time points.",
+             "in-sample and out-of-sample, labels = requested time points. ExponentialSmoothing._fit_forecaster hands y and every option, "
+             "unchanged and under its own keyword, to statsmodels and fits that model.",
         note="np.nanmean is an uninterpreted aggregator (no missing values assumed in the window); least-squares fit is sklearn's "
              "(assumed); statsmodels adapters (ExponentialSmoothing, AutoETS, Theta) are covered by the bounded tier only "
              "(comparison with direct statsmodels calls); nonlinear mod/ceil facts via quotient-remainder encoding + hint lemmas",
